@@ -182,9 +182,21 @@ func (p *processor) processEvent(event *Event) (isPassed bool, e *Event) {
 		event = stream.blockGet()
 		if event.IsTimeoutKind() {
 			// pass timeout directly to plugin which requested next sequential event.
-			event.action = lastAction
+			event.action = p.busyAction(lastAction)
 		}
 	}
+}
+
+// busyAction returns the index of the first action that waits for the next
+// sequential event. The action that handled the last event isn't necessarily
+// that one: an earlier action may have discarded an event in the meantime.
+func (p *processor) busyAction(lastAction int) int {
+	for i, busy := range p.busyActions {
+		if busy {
+			return i
+		}
+	}
+	return lastAction
 }
 
 func (p *processor) doActions(event *Event) (isPassed bool, lastAction int) {
